@@ -9,6 +9,9 @@ import Mahotas.Proofs.C17PR
 import Mahotas.Proofs.C17Resid
 import Mahotas.Proofs.C17General
 import Mahotas.Proofs.C17Energy
+import Mahotas.Proofs.C17Odd
+import Mahotas.Proofs.C17Mem
+import Mahotas.Proofs.C17Center
 import Mathlib.Algebra.Order.Ring.Rat
 namespace Mahotas.C17
 open Mahotas
@@ -630,3 +633,143 @@ example : energy 4 4 (daubechies2 ([3 / 5, 6 / 5, 2 / 5, -1 / 5] : List ℚ) 4 4
       (fun y x => if y = 2 ∧ x = 2 then 1 else 0)) = 4 ∧
     energy 4 4 (fun y x => if y = 2 ∧ x = 2 then (1 : ℚ) else 0) = 1 := by
   constructor <;> decide +kernel
+
+
+/-! ## Round 4: odd sides, the strided memory the C code works on, every border -/
+
+open Mahotas.C17.Mem in
+/-- **C17 (Haar round trip, every length).** On a row of ANY length `N` (odd included) `ihaar(haar(row))` returns the
+first `2⌊N/2⌋` samples unchanged and `0` in every later slot: for odd `N` the last sample is lost (the C loops run to
+`N/2`, the last slot of the scratch buffer keeps `T()`). Over any field with `2 ≠ 0`. -/
+theorem C17_ihaar_haar_row_any {K : Type} [Field K] (h2 : (2 : K) ≠ 0) (N : Nat) (f : Nat → K) (k : Nat) :
+    ihaarRow N (haarRow N f) k = if k < 2 * (N / 2) then f k else 0 :=
+  ihaarRow_haarRow_any h2 N f k
+
+/-- **C17 (Haar round trip, every shape, core model).** For every shape, `preserve_energy` on or off, the core model of
+`ihaar(haar(f))` returns `f` on `[0, 2⌊N0/2⌋) × [0, 2⌊N1/2⌋)` and `0` elsewhere — the last row and the last column of
+an odd side are lost, everything else is reconstructed. The real code follows the core model exactly when the pointer
+`high = data + step*N1/2` is right (`C17_high_pointer`, `C17_mem_is_core`): for a C-contiguous array that is every
+`N1` and every EVEN `N0`; with an odd number of rows the column pass of `ihaar` reads other elements
+(`Model/C17Mem.lean` reproduces that, the run compares it). -/
+theorem C17_ihaar_haar_any {K : Type} [Field K] (h2 : (2 : K) ≠ 0) (pe : Bool) (N0 N1 : Nat) (f : Im K)
+    (y x : Nat) :
+    ihaar2 pe N0 N1 (haar2 pe N0 N1 f) y x = if y < 2 * (N0 / 2) ∧ x < 2 * (N1 / 2) then f y x else 0 :=
+  ihaar2_haar2_any h2 pe N0 N1 f y x
+
+/-- non-vacuity: a row of five samples: the first four come back, the fifth is lost -/
+example : (List.range 5).map (ihaarRow 5 (haarRow 5 (fun i => ((i : ℚ) + 1) ^ 2))) = [1, 4, 9, 16, 0] := by
+  decide +kernel
+
+/-- **C17 (the pointer `high = data + step*N1/2`).** `ihaar` and `iwavelet` compute the address of the second half
+of a row as `data + (step·N)/2` with C's truncating division. It is the address of sample `N/2`, `data + step·(N/2)`,
+whenever `N` is even or `step = ±1`; for odd `N` it is off by exactly `step/2` (truncated) elements — zero only for
+`|step| ≤ 1`. -/
+theorem C17_high_pointer (step : Int) (N : Nat) :
+    ((N % 2 = 0 ∨ step = 1 ∨ step = -1) → Mem.highOff step N = step * ((N / 2 : Nat) : Int)) ∧
+    (N % 2 = 1 → Mem.highOff step N = step * ((N / 2 : Nat) : Int) + step.tdiv 2) :=
+  ⟨fun h => Mem.highOK_of step N h, fun h => Mem.highOff_odd step N h⟩
+
+/-- non-vacuity: the transposed pass over a C-contiguous `3 × 2` array (`step = 2`, `N = 3`): `high` is one element
+too far; over a `3 × 3` array (`step = 3`) likewise; with `step = 1` it is right -/
+example : Mem.highOff 2 3 = 3 ∧ (2 : Int) * ((3 / 2 : Nat) : Int) = 2 ∧ Mem.highOff 3 3 = 4 ∧ Mem.highOff 1 3 = 1 := by
+  decide
+
+/-- **C17 (the C kernels on strided memory are the core model).** For each of the four wrappers (`haar`, `ihaar`,
+`daubechies`, `idaubechies`), every coefficient list, `preserve_energy` on or off, every strided view `v` of a memory
+`m` whose elements have distinct addresses (`View.Inj`: C, Fortran, sliced, negative strides, …) and for which both
+pointers are right (each side even, or unit stride along it): the in-place passes over `f` and over the transposed
+view `f.T` followed by the in-place scaling — rows processed one after the other, each through its scratch buffer
+(`Mem.wrapperBody`, what the driver runs) — leave in the view exactly the core 2-D model applied to the image the
+view showed, and change no address outside the view. In particular on even sides the result does not depend on the
+memory layout. -/
+theorem C17_mem_is_core {K : Type} [Field K] (w : Mem.Wrapper) (pe : Bool) (cs : List K) (v : Mem.View)
+    (hinj : v.Inj) (h1 : v.N1 % 2 = 0 ∨ v.s1 = 1 ∨ v.s1 = -1) (h0 : v.N0 % 2 = 0 ∨ v.s0 = 1 ∨ v.s0 = -1)
+    (m : Mem.Memory K) :
+    (∀ y x, y < v.N0 → x < v.N1 →
+      Mem.wrapperBody w pe cs v m (v.addr y x) = Mem.core2 w pe cs v.N0 v.N1 (v.read m) y x) ∧
+    (∀ a, (∀ y x, y < v.N0 → x < v.N1 → a ≠ v.addr y x) → Mem.wrapperBody w pe cs v m a = m a) :=
+  Mem.wrapperBody_spec w pe cs v hinj (Mem.highOK_of _ _ h1) (Mem.highOK_of _ _ h0) m
+
+/-- non-vacuity of `C17_mem_is_core` (a C-contiguous `2 × 4` view is injective with both sides even) and the case it
+excludes: on the C-contiguous `3 × 2` array with rows `(1,4), (9,16), (25,36)` the memory-level `ihaar` returns
+`(−7, 5/4), (11/2, 5/4), (0, 0)` — what the real code returns — while the core model gives `(1, −5), (−5/2, 15/2), (0, 0)` -/
+example : (Mem.View.contig 2 4).Inj ∧
+    (List.range 6).map (fun (a : Nat) => Mem.wrapperBody .ihaar false ([] : List ℚ) (Mem.View.contig 3 2)
+      (fun p => ([1, 4, 9, 16, 25, 36] : List ℚ).getD p.toNat 0) (a : Int)) = [-7, 5 / 4, 11 / 2, 5 / 4, 0, 0] ∧
+    (List.range 6).map (fun (a : Nat) => ihaar2 false 3 2
+      (fun y x => ([1, 4, 9, 16, 25, 36] : List ℚ).getD (2 * y + x) 0) (a / 2) (a % 2)) = [1, -5, -5 / 2, 15 / 2, 0, 0] := by
+  refine ⟨Mem.contig_inj 2 4, ?_, ?_⟩ <;> decide +kernel
+
+/-- **C17 (`inline`, at the level of memory).** A wrapper call on a view `v` of the caller's memory `m`
+(`Mem.wrapMem`: `_wavelet_array`, then the kernels): unless `inline=True` AND the array is floating point, the caller's
+memory is returned unchanged — every address, inside and outside the view — and the result is computed in a fresh
+contiguous array from the image the view shows; with `inline=True` on a floating-point array the passes run on the
+caller's view itself, whatever its strides, and the returned image is that view. -/
+theorem C17_inline_memory {K : Type} [Field K] (w : Mem.Wrapper) (pe : Bool) (cs : List K) (isFloat inline : Bool)
+    (v : Mem.View) (m : Mem.Memory K) :
+    (¬ (inline = true ∧ isFloat = true) →
+      (Mem.wrapMem w pe cs isFloat inline v m).1 = m ∧
+      (Mem.wrapMem w pe cs isFloat inline v m).2
+        = (Mem.freshView isFloat inline v).read (Mem.wrapperBody w pe cs (Mem.freshView isFloat inline v)
+            (Mem.freshMem (Mem.freshView isFloat inline v) (v.read m)))) ∧
+    (inline = true ∧ isFloat = true →
+      (Mem.wrapMem w pe cs isFloat inline v m).1 = Mem.wrapperBody w pe cs v m ∧
+      (Mem.wrapMem w pe cs isFloat inline v m).2 = v.read (Mem.wrapperBody w pe cs v m)) := by
+  cases isFloat <;> cases inline <;> simp [Mem.wrapMem, Mem.wrapMemG, wrapTarget, Mem.wrapperBody]
+
+/-- non-vacuity: `haar(f, inline=True)` on the float view `A[:, ::2]` of a `2 × 4` buffer writes the transform into
+the even columns and leaves the odd columns alone; with `inline=False` the buffer is unchanged -/
+example :
+    (List.range 8).map (fun (a : Nat) => (Mem.wrapMem .haar false ([] : List ℚ) true true ⟨0, 2, 2, 4, 2⟩
+      (fun p => ([1, 7, 2, 7, 3, 7, 5, 7] : List ℚ).getD p.toNat 0)).1 (a : Int)) = [11, 7, 3, 7, 5, 7, 1, 7] ∧
+    (List.range 8).map (fun (a : Nat) => (Mem.wrapMem .haar false ([] : List ℚ) true false ⟨0, 2, 2, 4, 2⟩
+      (fun p => ([1, 7, 2, 7, 3, 7, 5, 7] : List ℚ).getD p.toNat 0)).1 (a : Int)) = [1, 7, 2, 7, 3, 7, 5, 7] := by
+  constructor <;> decide +kernel
+
+/-- **C17 (`wavelet_center` for every border).** Whatever `_wavelet_center_compute(oshape, border)` returns for an
+INTEGER border (negative, zero, huge): the border is below `2^40`, the shape non-empty with positive sides, and there is
+one step `1 ≤ c ≤ 63` such that every new side is the power of two `2^(⌊log₂ o⌋ + c)`, every offset is `(new − old)/2` and
+exceeds the border, and `c` is the FIRST such step (for every smaller `c' ≥ 1` some offset is `≤ border`): the sides
+are the minimal admissible powers of two. A negative border gives `c = 1` (the result of `border = −1`… is that of no
+border requirement at all). -/
+theorem C17_center_every_border (oshape : List Int) (border : Int) (ns d : List Nat)
+    (h : Mem.centerComputeI oshape border = some (ns, d)) :
+    border < 2 ^ 40 ∧ oshape ≠ [] ∧ (∀ o ∈ oshape, 0 < o) ∧
+    ∃ c, 1 ≤ c ∧ c ≤ 63 ∧
+      ns = (oshape.map Int.toNat).map (fun t => 2 ^ (Nat.log2 t + c)) ∧
+      d = (oshape.map Int.toNat).map (fun t => (2 ^ (Nat.log2 t + c) - t) / 2) ∧
+      (∀ x ∈ d, border < (x : Int)) ∧
+      (∀ c', 1 ≤ c' → c' < c →
+        ∃ t ∈ oshape.map Int.toNat, (((2 ^ (Nat.log2 t + c') - t) / 2 : Nat) : Int) ≤ border) ∧
+      (border < 0 → c = 1) :=
+  Mem.centerComputeI_spec oshape border ns d h
+
+/-- **C17 (`wavelet_center` never fails on an admissible input).** For every non-empty shape with positive sides and
+every integer border below `2^40` the loop `for c in range(1, 64)` of `_wavelet_center_compute` finds a step (`c = 42`
+always qualifies): a result exists. -/
+theorem C17_center_total (oshape : List Int) (border : Int) (hb : border < 2 ^ 40) (hne : oshape ≠ [])
+    (hpos : ∀ o ∈ oshape, 0 < o) : (Mem.centerComputeI oshape border).isSome = true :=
+  Mem.centerComputeI_total oshape border hb hne hpos
+
+/-- **C17 (`wavelet_decenter ∘ wavelet_center = id` for every border).** For every 2-D shape and every integer border
+for which `_wavelet_center_compute` returns new sides `(M0, M1)` and offsets `(d0, d1)`: the image fits behind its
+offsets (`d0 + N0 ≤ M0`, `d1 + N1 ≤ M1`), and slicing the embedded image at the same offsets gives `f` back at every
+pixel, for any fill value and any scalar type. -/
+theorem C17_decenter_center_every_border {α : Type} (N0 N1 : Nat) (border : Int) (M0 M1 d0 d1 : Nat)
+    (h : Mem.centerComputeI [(N0 : Int), (N1 : Int)] border = some ([M0, M1], [d0, d1]))
+    (cval : α) (f : Im α) :
+    d0 + N0 ≤ M0 ∧ d1 + N1 ≤ M1 ∧
+    ∀ y x, y < N0 → x < N1 → decenter d0 d1 (center N0 N1 d0 d1 cval f) y x = f y x := by
+  obtain ⟨_, _, _, c, hc, _, hns, hd, _, _, _⟩ := Mem.centerComputeI_spec _ _ _ _ h
+  simp only [List.map_cons, List.map_nil, Int.toNat_natCast, List.cons.injEq, and_true] at hns hd
+  obtain ⟨rfl, rfl⟩ := hns
+  obtain ⟨rfl, rfl⟩ := hd
+  exact ⟨Mem.cand_fits N0 c hc, Mem.cand_fits N1 c hc, fun y x hy hx => C17_decenter_center N0 N1 _ _ cval f y x hy hx⟩
+
+/-- non-vacuity: a negative border, the default, a large one, the largest admissible one, one beyond it, a zero side -/
+example : Mem.centerComputeI [5, 12] (-3) = some ([8, 16], [1, 2]) ∧
+    Mem.centerComputeI [5, 12] 0 = some ([8, 16], [1, 2]) ∧
+    Mem.centerComputeI [5, 12] 1 = some ([16, 32], [5, 10]) ∧
+    Mem.centerComputeI [4] (2 ^ 40 - 1) = some ([2 ^ 42], [2 ^ 41 - 2]) ∧
+    Mem.centerComputeI [4] (2 ^ 40) = none ∧ Mem.centerComputeI [4, 0] 0 = none := by
+  decide +kernel
